@@ -110,7 +110,11 @@ func kindClass(kind string) string {
 }
 
 func c03Case(c run.Ctx) (gen.Config, gen.Universe, []seq.Op, *rand.Rand) {
-	r := gen.Rng(c.Seed, propStream("C03"), uint64(c.Index))
+	prop := c.Prop
+	if prop == "" {
+		prop = "C03"
+	}
+	r := gen.Rng(c.Seed, propStream(prop), uint64(c.Index))
 	cfg := gen.Config{Primary: gen.MH, Bits: []uint8{8, 9, 12}[r.IntN(3)],
 		IndexFileSize:   []uint32{16, 40, 100, 1024}[r.IntN(4)],
 		PrimaryFileSize: []uint32{16, 50, 300, 4096}[r.IntN(4)],
